@@ -309,6 +309,52 @@ def register(gen, T):
                    "def chainPerFile : Bool := true\n\n"
                    "/-- error when an included file (or the entry file) ends with blocks of its own still open -/\n"
                    "def fileUnfinishedErr : ChainErr := .ConditionChainNotFinished\n\n")
+        # ---- an #include is processed every time it is met: the arm has three early returns (skipped group,
+        # malformed operand, depth limit) and then load + preprocess_included_file, unconditionally; the only
+        # per-file memory of FileLoader that decides what a file contributes is `pragma_once_files` (tested in
+        # `load`: a marked file is delivered as the empty text)
+        want_inc = ("if skip { return Ok(()); } let command = trim_whitespace(command); let file_name = match command { "
+                    "[PreprocessToken(Token::LiteralString(s), _)] => s.clone(), "
+                    "[PreprocessToken(Token::HeaderName(s), _)] => s.clone(), "
+                    "_ => return Err(PreprocessError::InvalidInclude(command_location)), }; "
+                    "if file_loader.include_depth >= MAX_INCLUDE_DEPTH { return Err(PreprocessError::IncludeDepthExceeded(command_location)); } "
+                    "match file_loader.load(&file_name, Some(file_id)) { Ok(file) => { file_loader.include_depth += 1; "
+                    "let result = preprocess_included_file( buffer, file_loader, file, macros, condition_chain, ); "
+                    "file_loader.include_depth -= 1; result } "
+                    "Err(err) => Err(PreprocessError::FailedToFindFile( command_location, file_name.to_string(), err, )), }")
+        got_inc = inc_arm.strip()
+        if got_inc.startswith("{") and got_inc.endswith("}"):
+            got_inc = got_inc[1:-1].strip()
+        if got_inc != want_inc:
+            raise ExtractError("#include arm of preprocess_command: not `skip / operand / depth limit / load + "
+                               "preprocess_included_file` (a new way to leave the arm without processing the file?)")
+        fm = re.search(r"struct FileLoader<'a>\s*\{(.*?)\n\}", pre, re.S)
+        fields = re.findall(r'^\s*([a-z_]+)\s*:', fm.group(1), re.M) if fm else []
+        want_fields = ["file_name_remap", "real_name_remap", "pragma_once_files", "source_manager", "include_handler",
+                       "include_depth"]
+        if fields != want_fields:
+            raise ExtractError(f"struct FileLoader has fields {fields}: per-file memory other than the pragma-once set?")
+        ld = normws(impl_fn_body(pre, r'FileLoader<', "load"))
+        ld_tail = ("if self.pragma_once_files.contains(&id) { Ok(InputFile { file_id: id, contents: String::new(), }) } else { "
+                   "let contents = self.source_manager.get_contents(id); Ok(InputFile { file_id: id, contents: contents.to_string(), }) }")
+        if not ld.endswith(ld_tail) or ld.count("pragma_once_files") != 1 or ld.count("String::new()") != 1:
+            raise ExtractError("FileLoader::load: the contents are withheld for another reason than #pragma once")
+        uses = sorted(set(re.findall(r'file_loader\s*\.\s*([a-z_]+)', pc + fn_body(pre, "preprocess_included_file"))))
+        want_uses = ["get_source_location_from_file_offset", "include_depth", "load", "mark_as_pragma_once", "source_manager"]
+        if uses != want_uses:
+            raise ExtractError(f"preprocess_command / preprocess_included_file use file_loader.{uses}: expected {want_uses}")
+        out.append("/-- the `\"include\"` arm of `preprocess_command` leaves early only for a skipped group, a malformed\n"
+                   "    operand and the depth limit; otherwise it loads the file and runs `preprocess_included_file` on it,\n"
+                   "    every time -/\n"
+                   "def includeArmHasNoSkip : Bool := true\n\n"
+                   "/-- early exits of the include arm, in order -/\n"
+                   "def includeArmExits : List String := [\"skip\", \"InvalidInclude\", \"IncludeDepthExceeded\"]\n\n"
+                   "/-- fields of `struct FileLoader` (everything the preprocessor remembers about files) -/\n"
+                   "def fileLoaderFields : List String := " + T.lean_list(f'"{n}"' for n in fields) + "\n\n"
+                   "/-- members of `file_loader` that `preprocess_command` / `preprocess_included_file` touch -/\n"
+                   "def fileLoaderUses : List String := " + T.lean_list(f'"{n}"' for n in uses) + "\n\n"
+                   "/-- `FileLoader::load` withholds the text of a file only when it is in `pragma_once_files` -/\n"
+                   "def loadWithholdsOnlyOnce : Bool := true\n\n")
         if not re.search(r'if tokens\.iter\(\)\.any\(\|t\| t\.0 == Token::Endline\) \{ return Err\(PreprocessError::InvalidDefine\('
                          r'SourceLocation::UNKNOWN\)\); \} let macro_def = Macro::parse\(&tokens\)\?;', pif):
             raise ExtractError("preprocess_initial_file: the line-break test on API defines is not in front of Macro::parse")
